@@ -7,6 +7,12 @@ declares, with the same dimension or the documented CGS/SI electromagnetic count
 converts back to x, agrees with get_base_equivalent / convert_to_base / in_cgs / in_mks, and is a
 fixed point of in_base(S).  Evaluated exhaustively over the built-in systems x atomic units
 (x SI prefixes), and on generated compounds, user-defined systems and code-unit registries.
+Registry clauses (`c10_reg_oracle`): when the quantity lives in a registry that values the system's
+base/declared symbols differently from the system's own registry (modified symbols, code units
+defined per registry), the result of every route (in_base first and second call, convert_to_base,
+in_cgs/in_mks, get_base_equivalent, in_base of the result) carries a unit whose data is what its
+printed expression resolves to in the QUANTITY's registry, denotes the same physical quantity there,
+converts back to the original numbers and is unchanged by `.to(str(units))`.
 
 Correspondence: the compiled Lean model (`drv_c10`) is run on the same inputs (the live
 `units_map` travels with every request) and must give the same unit, value, exception class and
@@ -178,7 +184,13 @@ def c10_oracle(sysname, unit, x=2.5, registry=None):
                 fails.append("named"); detail.append(f"in_{sysname}/convert_to_{sysname}/get_{sysname}_equivalent disagree with in_base: {rn}, {z}, {ue} vs {r}")
     except Exception as e:
         fails.append("inplace"); detail.append(f"in-place variant raised {type(e).__name__}: {e}")
-    # applying it twice is the same as applying it once
+    # applying it twice is the same as applying it once — also after the unit the result is labelled with
+    # has been created from its string in the quantity's registry (which files it in the registry's
+    # string cache, as any user code may do at any time; makes the outcome independent of earlier calls)
+    try:
+        Unit(str(r.units), registry=u.registry)
+    except Exception:
+        pass
     try:
         r2 = r.in_base(sysname)
         if not c10_same_unit(r2.units, r.units):
@@ -190,6 +202,99 @@ def c10_oracle(sysname, unit, x=2.5, registry=None):
         fails.append("notfixed"); detail.append(f"second application raised {type(e).__name__}")
         if verdict == "closed": verdict = "notFixed"
     return verdict, fails, "; ".join(detail)
+
+# ---- the result unit lives in the QUANTITY's registry ------------------------------------------
+def c10_resolve_label(units, reg):
+    """what the printed expression of `units` resolves to in `reg`"""
+    try:
+        return Unit(str(units), registry=reg)
+    except Exception:
+        return Unit(units.expr, registry=reg)
+
+def c10_reg_clauses(route, u, x, r, reg, fails):
+    """the registry clauses for one result `r` of converting `x u` (u lives in `reg`):
+    label    — base_value/dimensions/offset of r.units are what its printed expression resolves to in `reg`
+    si       — the number, read in the unit the label names in `reg`, is the same physical quantity
+    roundtrip — r.to(u) gives the original numbers
+    reread   — r.to(str(r.units)) does not change the number"""
+    x = np.asarray(x, dtype=float)
+    here = c10_resolve_label(r.units, reg)
+    have = r.units
+    off = abs(u.base_offset) + abs(have.base_offset) + abs(here.base_offset)
+    if (have.dimensions != here.dimensions or not math.isclose(have.base_value, here.base_value, rel_tol=1e-9)
+            or not math.isclose(have.base_offset, here.base_offset, rel_tol=1e-9, abs_tol=1e-9)):
+        fails.append((route, "label", f"{route}: the result is labelled {str(have)!r} (base_value {have.base_value!r}, {have.dimensions}) "
+                      f"but {str(have)!r} in the quantity's registry has base_value {here.base_value!r}, {here.dimensions}"))
+    samedim = here.dimensions == u.dimensions
+    rel = max(1.0, abs(here.base_value / u.base_value)) if samedim and u.base_value else 1.0
+    try:
+        if samedim and off == 0:
+            ok = bool(np.all(np.isclose(x * u.base_value, np.asarray(r.v, dtype=float) * here.base_value, rtol=1e-9, atol=0.0)))
+            got = f"{r.v!r} x {here.base_value!r} (SI)"
+        else:
+            back = unyt_array(np.asarray(r.v, dtype=float), here).to(u)
+            ok = c10_close(back.v, x, off * rel)
+            got = f"{back}"
+        if not ok:
+            fails.append((route, "si", f"{route}: {x!r} {u} (base_value {u.base_value!r}) became {r}, which read in the quantity's registry is {got}"))
+    except Exception as e:
+        fails.append((route, "si", f"{route}: reading {r} back in the quantity's registry raised {type(e).__name__}: {e}"))
+    try:
+        back = r.to(u)
+        if not c10_close(back.v, x, off * rel):
+            fails.append((route, "roundtrip", f"{route}: {x!r} {u} -> {r} -> {back}"))
+    except Exception as e:
+        fails.append((route, "roundtrip", f"{route}: converting {r} back to {u} raised {type(e).__name__}: {e}"))
+    try:
+        again = r.to(str(r.units))
+        if not c10_close(again.v, r.v, abs(have.base_offset) + abs(here.base_offset)):
+            fails.append((route, "reread", f"{route}: {r}.to({str(r.units)!r}) changes the number to {again.v!r}"))
+    except Exception as e:
+        fails.append((route, "reread", f"{route}: {r}.to({str(r.units)!r}) raised {type(e).__name__}: {e}"))
+
+def c10_reg_oracle(sysname, unit, x, reg):
+    """every route into the base units of `sysname` for a quantity whose unit lives in `reg`
+    (first and second call: the second one finds the dimension memoised in units_map)
+    -> [(route, clause, detail)]; [] when the conversion is refused on every route"""
+    u = Unit(unit, registry=reg) if isinstance(unit, str) else unit
+    fails = []
+    q = unyt_quantity(x, u)
+    try:
+        first = q.in_base(sysname)
+    except UnitsNotReducible:
+        for route, f in (("get_base_equivalent", lambda: u.get_base_equivalent(sysname)), ("in_base-again", lambda: q.in_base(sysname))):
+            try:
+                f()
+                fails.append((route, "refusal", f"in_base({sysname!r}) of {u} raised UnitsNotReducible but {route} returned"))
+            except UnitsNotReducible:
+                pass
+        return fails
+    routes = [("in_base", lambda: first), ("in_base-again", lambda: unyt_quantity(x, u).in_base(sysname))]
+    def inplace(method, *a):
+        y = unyt_array(np.array([x, 2 * x, -x]), u)
+        getattr(y, method)(*a)
+        return y
+    routes.append(("convert_to_base", lambda: inplace("convert_to_base", sysname)))
+    routes.append(("get_base_equivalent", lambda: unyt_array(np.array([x, -x]), u).to(u.get_base_equivalent(sysname))))
+    if sysname in ("cgs", "mks"):
+        routes.append(("in_" + sysname, lambda: getattr(unyt_quantity(x, u), "in_" + sysname)()))
+        routes.append(("convert_to_" + sysname, lambda: inplace("convert_to_" + sysname)))
+        routes.append(("get_" + sysname + "_equivalent", lambda: unyt_quantity(x, u).to(getattr(u, "get_" + sysname + "_equivalent")())))
+    routes.append(("in_base-of-result", lambda: first.in_base(sysname)))
+    for route, f in routes:
+        try:
+            r = f()
+        except Exception as e:
+            fails.append((route, "raise", f"{route} of {x} {u} into {sysname!r} raised {type(e).__name__}: {e}"))
+            continue
+        if route == "in_base-of-result":  # the second application converts the quantity `first`
+            c10_reg_clauses(route, first.units, first.v, r, reg, fails)
+            continue
+        xs = np.array([x, 2 * x, -x]) if r.shape == (3,) else np.array([x, -x]) if r.shape == (2,) else x
+        c10_reg_clauses(route, u, xs, r, reg, fails)
+        if route != "in_base" and (str(r.units) != str(first.units) or not c10_close(np.asarray(r.v).flat[0], first.v, abs(u.base_offset) + abs(first.units.base_offset))):
+            fails.append((route, "differs", f"{route} gives {r}, the first in_base gave {first}"))
+    return fails
 '''
 
 CLOSURE_KINDS = {"outside", "notfixed"}
@@ -396,7 +501,7 @@ def run(tier, seed):
         variant_lines.append("\t".join(["c10.baseequiv", extra, before, uw]))
         variant_expect.append((tag, sysname, str(u), x, res, u))
 
-    def run_case(tag, sysname, us, u, x, setup="", regcode="None", extra="", sample=None):
+    def run_case(tag, sysname, us, u, x, setup="", regcode="None", extra="", sample=None, variant=None):
         """direct oracle on the library for one (system, unit, value) + the model request"""
         if not in_float_range(sysname, u):
             chk.count("float-range-skipped")
@@ -416,7 +521,7 @@ def run(tier, seed):
             chk.fail(f"raise|{tag}|{atomic}|{core.exc_name(e)}", f"in_base({sysname!r}) of {us} raised {core.exc_name(e)} {('[' + setup.strip() + ']') if setup else ''}",
                      rp(error=repr(e)[:300]))
             return None
-        chk.case((tag, sysname, us), sample(verdict) if sample else None)
+        chk.case((tag, sysname, us) if variant is None else (tag, sysname, us, variant), sample(verdict) if sample else None)
         chk.count(f"{tag}:{verdict}")
         if fails:
             is_em = any(k[1] == u.dimensions for k in em_conversions)
@@ -724,6 +829,229 @@ def run(tier, seed):
                      sample=lambda v: {"setup": setup.strip(), "unit": us, "verdict": v} if us == "km" and i == 0 else None)
         memo_audit("code", name, setup=setup, regcode="reg")
 
+    import time as _time
+    _t6b = _time.time()
+    # ------------------------------------------------------------------ 6b. the quantity lives in ANOTHER registry than the system
+    # The system resolves its symbols in its own registry (the default one for the built-in systems and
+    # for user systems built without `registry=`); the RESULT must be the system's unit as the quantity's
+    # registry values it.  Registries are generated in which symbols the target system uses as base or
+    # declared units are re-valued (`modify`) or newly defined (`add`, code units).
+    from unyt.unit_systems import _split_prefix
+    reg_oracle = ns["c10_reg_oracle"]
+    deflut = UnitRegistry().lut
+    REG_FACTORS = [1.25, 0.5, 3.0, 8.0, 1.0058]
+
+    def lut_symbol(atom):
+        if atom in deflut:
+            return atom
+        p, wo = _split_prefix(atom, deflut)
+        return wo if p and wo in deflut else None
+
+    def system_symbols(S):
+        """(lut symbols of the base units, lut symbols of the declared units that are not base symbols)"""
+        base, decl = [], []
+        for v in S.base_units.values():
+            if v is not None:
+                for a in sorted(ns["c10_atoms"](v)):
+                    s_ = lut_symbol(a)
+                    if s_ and s_ not in base:
+                        base.append(s_)
+        for n_ in S._dims[8:]:
+            v = S.units_map.get(getattr(D, n_))
+            if v is not None:
+                for a in sorted(ns["c10_atoms"](v)):
+                    s_ = lut_symbol(a)
+                    if s_ and s_ not in base and s_ not in decl:
+                        decl.append(s_)
+        return base, decl
+
+    def modify_lines(var, syms):
+        """`var = UnitRegistry(); var.modify(sym, default value x factor)` for each symbol"""
+        lines = [f"{var} = UnitRegistry()"]
+        for s_ in syms:
+            lines.append(f"{var}.modify({s_!r}, {float(deflut[s_][0]) * rng.choice(REG_FACTORS)!r})")
+        return "\n".join(lines) + "\n"
+
+    def reg_extra(reg):
+        """the rows in which `reg` differs from the default table, for the model"""
+        rows = []
+        for k, v in reg.lut.items():
+            if k in getattr(reg, "_derived_symbols", ()) or (k in deflut and deflut[k][:3] == v[:3]):
+                continue
+            rows.append((k, float(v[0]), float(v[2]), v[1], bool(v[4]) if len(v) > 4 else False))
+        return extra_wire(rows)
+
+    def reg_pool(reg, syms, n_fixed, n_rand):
+        """units whose conversion involves the re-valued symbols: the symbols themselves, other units of
+        the same dimension (alone and in a compound), a fixed everyday list, seeded compounds"""
+        pool = []
+        for s_ in syms:
+            pool.append(s_)
+            dv = gen.dim_vec(reg.lut[s_][1])
+            others = [o for o in bydim.get(dv, []) if o != s_ and o not in ("lat", "lon")]
+            if others:
+                o = rng.choice(others)
+                pool.append(o)
+                pool.append(f"{rng.choice(others)}*km/s**2")
+            if s_ in prefixable:
+                pool.append(rng.choice(["k", "m", "M"]) + s_)
+        fixed = ["kg", "g", "m", "km", "s", "yr", "K", "degC", "degF", "g/cm**3", "erg", "J", "km/s", "N", "W", "Msun/kpc**3", "G", "T", "statC", "C",
+                 "erg/s/cm**2", "J/K", "lb*ft", "pc/Myr", "mile/hr", "dyn/cm**2"]
+        pool += rng.sample(fixed, n_fixed)
+        pool += [gen.random_compound(rng, 3) for _ in range(n_rand)]
+        seen, out = set(), []
+        for p_ in pool:
+            if p_ not in seen:
+                seen.add(p_); out.append(p_)
+        return out
+
+    def reg_cases(tag, syskind, modkind, sname, setup, regcode, reg, pool):
+        """existing oracle + model (the table of the QUANTITY's registry travels as `extra`) + the registry clauses"""
+        extra = reg_extra(reg) if reg is not None else ""
+        regarg = regcode if reg is not None else "None"
+        for us in pool:
+            try:
+                u = Unit(us, registry=reg)
+            except Exception:
+                chk.count("reg:unit-unparsable")
+                continue
+            x = rng.choice(xs)
+            if not in_float_range(sname, u):
+                chk.count("float-range-skipped")
+                continue
+            run_case(tag, sname, us, u, x, setup=setup, regcode=regarg, extra=extra, variant=f"{syskind}/{modkind}",
+                     sample=lambda v: {"setup": setup.strip(), "unit": us, "verdict": v} if us == pool[0] and len(chk.samples) < 16 else None)
+            chk.count(f"reg:{syskind}:{modkind}")
+            is_em = "em" if any(k[1] == u.dimensions for k in em_conversions) else "plain"
+            try:
+                fails = reg_oracle(sname, u, x, u.registry)
+            except Exception as e:
+                fails = [("oracle", "raise", f"{core.exc_name(e)}: {e}")]
+            seen = set()
+            for route, clause, detail in fails:
+                if (route, clause) in seen:
+                    continue
+                seen.add((route, clause))
+                code = (ORACLE + "\n" + setup_block(setup) + f"fails = c10_reg_oracle({sname!r}, {us!r}, {x!r}, {regcode if reg is not None else 'unyt.unit_registry.default_unit_registry'})\n"
+                        + f"bad = [f for f in fails if f[:2] == ({route!r}, {clause!r})]\nassert not bad, bad\n")
+                chk.fail(f"reg|{syskind}|{modkind}|{route}|{clause}|{is_em}",
+                         f"{x} {us} of a registry [{setup.strip()}] into {sname!r}: {detail}",
+                         {"python": code, "system": sname, "unit": us, "setup": setup, "all_failed": sorted({f'{r_}|{c_}' for r_, c_, _ in fails})})
+
+    nmods = 1 if tier == "quick" else 3
+    for sname in builtin:
+        S = unit_system_registry[sname]
+        bsyms, dsyms = system_symbols(S)
+        plans = []
+        for _ in range(nmods):
+            plans.append(("base-modified", rng.sample(bsyms[:4], rng.randint(1, 2))))   # mass / length / time / temperature
+            plans.append(("base-modified", [rng.choice(bsyms)]))
+            if dsyms:
+                plans.append(("declared-modified", [rng.choice(dsyms)]))
+                plans.append(("base+declared-modified", [rng.choice(bsyms[:4]), rng.choice(dsyms)]))
+        plans.append(("all-base-modified", bsyms[:4]))
+        plans.append(("foreign-modified", [rng.choice([k for k in ("mile", "oz", "day", "eV", "bar") if k not in bsyms + dsyms])]))
+        for modkind, syms in plans:
+            setup = modify_lines("reg", syms)
+            cns = dict(ns)
+            try:
+                exec(setup, cns)
+            except Exception as e:
+                chk.fail(f"reg-setup|{core.exc_name(e)}", f"a registry could not be modified: {setup.strip()}: {core.exc_name(e)}", {"python": ORACLE + "\n" + setup})
+                continue
+            reg = cns["reg"]
+            reg_cases("builtin", "builtin", modkind, sname, setup, "reg", reg, reg_pool(reg, syms, 4 if tier == "quick" else 10, 1 if tier == "quick" else 6))
+
+    # user-defined systems: built without a registry (symbols resolved in the default one) or with a
+    # registry of their own; the quantity lives in a registry that values the system's symbols differently
+    user_bases = [("kpc", "Msun", "Myr"), ("km", "g", "yr"), ("ft", "lb", "hr"), ("AU", "Mearth", "day"), ("cm", "kg", "s"), ("pc", "Mjup", "kyr")]
+    user_decl = [("energy", "erg"), ("force", "lbf"), ("pressure", "bar"), ("power", "hp"), ("velocity", "mile/hr"), ("energy", "keV"), ("frequency", "kHz")]
+    nreg_user = 6 if tier == "quick" else 24
+    for i in range(nreg_user):
+        name = f"c10reg_{seed}_{i}"
+        L, M, T_ = user_bases[i % len(user_bases)] if i < len(user_bases) else (rng.choice(user_bases)[0], rng.choice(user_bases)[1], rng.choice(user_bases)[2])
+        tunit = rng.choice(["K", "R", "K", "mK"])
+        dn, du = rng.choice(user_decl)
+        own_registry = i % 2 == 1
+        bs = [s_ for s_ in (lut_symbol(L), lut_symbol(M), lut_symbol(T_), lut_symbol(tunit)) if s_]
+        ds = [lut_symbol(a) for a in sorted(ns["c10_atoms"](parse_unyt_expr(du)))]
+        ds = [s_ for s_ in ds if s_ and s_ not in bs]
+        if own_registry:
+            sys_syms = rng.sample(bs, 2) + (ds[:1] if rng.random() < 0.5 else [])
+            setup = modify_lines("sreg", sys_syms)
+            setup += f"S = UnitSystem({name!r}, {L!r}, {M!r}, {T_!r}, temperature_unit={tunit!r}, registry=sreg)\nS[{dn!r}] = {du!r}\n"
+        else:
+            setup = f"S = UnitSystem({name!r}, {L!r}, {M!r}, {T_!r}, temperature_unit={tunit!r})\nS[{dn!r}] = {du!r}\n"
+        cns = dict(ns)
+        try:
+            exec(setup, cns)
+        except Exception as e:
+            chk.fail(f"reg-user-setup|{core.exc_name(e)}", f"a user system could not be built: {setup.strip()}: {core.exc_name(e)}", {"python": ORACLE + "\n" + setup})
+            unit_system_registry.pop(name, None)
+            continue
+        created.append(name)
+        syskind = "user-own-registry" if own_registry else "user-default-registry"
+        qplans = [("base-modified", rng.sample(bs, rng.randint(1, 2))), ("all-base-modified", bs[:3])]
+        if ds:
+            qplans.append(("declared-modified", ds[:1]))
+        if own_registry:
+            qplans.append(("system-modified", None))       # the quantity lives in the default registry
+            qplans.append(("same-registry", "sreg"))       # control: the usual pattern
+        for modkind, syms in qplans:
+            if syms is None:
+                reg_cases("user", syskind, modkind, name, setup, "None", None, reg_pool(UnitRegistry(), sys_syms, 3, 1))
+                continue
+            if syms == "sreg":
+                reg_cases("user", syskind, modkind, name, setup, "sreg", cns["sreg"], reg_pool(cns["sreg"], sys_syms, 3, 1))
+                continue
+            qlines = modify_lines("reg", syms)
+            qsetup = setup + qlines
+            qns = dict(ns)
+            try:
+                exec(qlines, qns)
+            except Exception as e:
+                chk.fail(f"reg-setup|{core.exc_name(e)}", f"a registry could not be modified: {qsetup.strip()}: {core.exc_name(e)}", {"python": ORACLE + "\n" + qsetup})
+                continue
+            reg_cases("user", syskind, modkind, name, qsetup, "reg", qns["reg"], reg_pool(qns["reg"], syms, 3, 1))
+        memo_audit("user", name, setup=setup, regcode="sreg" if own_registry else "None")
+
+    # code-unit systems bound to registry A, quantity from registry B (a second "dataset") that defines
+    # the same code symbols with other values
+    ncode2 = 3 if tier == "quick" else 10
+    for i in range(ncode2):
+        name = f"c10code2_{seed}_{i}"
+        vals = [(rng.choice([3.0857e21, 1.0e5, 2.0]), rng.choice([1.989e30, 5.0, 1.0e10]), rng.choice([3.15e13, 60.0, 2.5])) for _ in range(2)]
+        if vals[0] == vals[1]:
+            vals[1] = (vals[1][0] * 2.5, vals[1][1], vals[1][2] * 0.5)
+        def code_reg(var, v):
+            return (f"{var} = UnitRegistry()\n{var}.add('code_length', {v[0]!r}, D.length)\n{var}.add('code_mass', {v[1]!r}, D.mass)\n"
+                    f"{var}.add('code_time', {v[2]!r}, D.time, prefixable=True)\n")
+        tunit = rng.choice(["K", "code_temperature"])
+        setup = code_reg("sreg", vals[0]) + code_reg("reg", vals[1])
+        if tunit != "K":
+            setup += "sreg.add('code_temperature', 10.0, D.temperature)\nreg.add('code_temperature', 4.0, D.temperature)\n"
+        if rng.random() < 0.5:
+            setup += "reg.modify('K', 1.5)\n"
+        setup += f"S = UnitSystem({name!r}, 'code_length', 'code_mass', 'code_time', temperature_unit={tunit!r}, registry=sreg)\n"
+        if rng.random() < 0.6:
+            setup += "S['velocity'] = 'code_length/code_time'\n"
+        cns = dict(ns)
+        try:
+            exec(setup, cns)
+        except Exception as e:
+            chk.fail(f"code-setup|{core.exc_name(e)}", f"a code-unit system could not be built: {core.exc_name(e)}", {"python": ORACLE + "\n" + setup})
+            unit_system_registry.pop(name, None)
+            continue
+        created.append(name)
+        pool = ["code_length", "code_mass", "code_time", "kcode_time", "code_length/code_time", "code_mass/code_length**3", "m", "km", "g/cm**3",
+                "erg", "J", "K", "degC", "km/s", "code_length*km", "Msun/kpc**3", "code_mass*code_length**2/code_time**2", "statC", "T"]
+        pool += [gen.random_compound(rng, 3) for _ in range(3 if tier == "quick" else 12)]
+        reg_cases("code", "code", "code-added", name, setup, "reg", cns["reg"], pool)
+        reg_cases("code", "code", "same-registry", name, setup, "sreg", cns["sreg"], pool[:8])
+        memo_audit("code", name, setup=setup, regcode="sreg")
+
+    if os.environ.get("C10_DEBUG"):
+        print(f"section 6b took {_time.time() - _t6b:.1f} s")
     # default system of a registry: in_base() == in_base('mks')
     for us in ("km", "erg/s", "statC", "degF"):
         q = unyt_quantity(2.0, us)
@@ -868,7 +1196,8 @@ def run(tier, seed):
 
     rule = ("built-in systems x every atomic unit of the unit table x SI prefixes on prefixable units (4 prefixes quick, all thorough), "
             "seeded compounds (incl. EM units), seeded user-defined systems (random base units incl. prefixed, offset and quantity-valued ones, "
-            "invalid ones, overrides) x units, code-unit registries; distinct = distinct (kind, system, unit) or (getitem, system, dimension); "
+            "invalid ones, overrides) x units, code-unit registries, quantities of registries that re-value or re-define the base/declared symbols of "
+            "the target system (built-in, user systems with and without a registry of their own, code systems of another registry) x every route; distinct = distinct (kind, system, unit) or (getitem, system, dimension); "
             "every case is a conversion into a system's base units or a look-up/synthesis/validation step of one")
     chk.assumptions = [
         "the parser (parse_unyt_expr) is outside the model: expressions travel parsed",
